@@ -1,8 +1,8 @@
 """C19 - merging stubs loses nothing and prefers stub types.
 
 TLC: spec/Merge.tla.  A case = (runtime tree, stubs tree) over the names a, b (classes: inner u, v);
-for every case the spec runs the loader/merger machine once per (placement, discovery order) - ten
-runs - and evaluates the clauses of the property on each run and across the runs.
+for every case the spec runs the finder/loader/merger machine once per (placement, discovery order,
+request form of griffe.load) - 17 runs - and evaluates the clauses of the property on each run and across the runs.
    Merge_gen.cfg     Legacy = {} (the code as it is): all clauses asserted on the WHOLE domain + every case emitted
    Merge_defect.cfg  regression config, model only: Legacy = the pre-fix statements; TLC must REPORT each old Defect* violated
 Binding: every emitted case is written to disk in all five placements and both listing orders and
@@ -106,7 +106,7 @@ def main(tier: str, replay: str | None = None):
     run = Run("C19", tier)
     run.rule = ("Merge.tla: cells = canonical (runtime kind, stub kind, presence bits, parameter sets incl. none, inner member kinds) combinations; quick: every cell with at most "
                 "one group of presence bits off default alone, kinds-only cells x 4 context cells in both declaration orders, module docstring modes; thorough: every cell x 6 "
-                "context cells, kinds-only cells x 6 contexts in both orders.  Each case x 5 placements x 2 listing orders is replayed.  Non-trivial = the stubs side defines "
+                "context cells, kinds-only cells x 6 contexts in both orders.  Each case is replayed in 17 runs (5 placements x listing orders x request forms top/module/object of griffe.load).  Non-trivial = the stubs side defines "
                 "or overloads at least one name and some name/inner name is present on a side; distinct by (cell a, cell b, mdoc).")
     procs = max(2, min(12, (os.cpu_count() or 4) - 4))
     if replay:
